@@ -121,7 +121,8 @@ ADV = {
     "kw": ["and", "not", "or", "when", "forall", "exists", "imply", "at", "start", "end", "over", "all", "object", "number",
            "increase", "decrease", "assign", "total-cost", "total-time", "define", "domain", "problem", "either", "init",
            "goal", "duration", "condition", "effect", "action", "typing", "strips", "always", "sometime", "minimize", "AND", "At",
-           "Object", "NOT", "Increase"],
+           "Object", "NOT", "Increase", "oneof", "unknown", "observe", "scale-up", "within", "at-most-once", "process", "event",
+           "length", "true", "false", "undefined", "constraints", "predicates", "functions", "types", "objects"],
     "upper": ["A", "a", "Move", "move", "MOVE", "ON", "On", "on", "Loc", "loc", "X", "x", "T", "t", "B", "b"],
     "digit": ["1a", "2", "007", "3_x", "9-b", "0", "42nd", "1A"],
     "symbol": ["a.b", "a b", "a_b", "a-b", "x@y", "p/q", "c:d", "#t", "?v", "a,b", "(q)", "a+b", "x'", "a.b.c", "a_b_c", "a__b",
@@ -192,6 +193,19 @@ def adversarial_names(P, rng, strength=0.7):
 # ----------------------------------------------------------------------------------------
 def _exc(ex):
     return type(ex).__name__
+
+
+def _where(ex):
+    """innermost frames of the traceback (walked by hand: the third-party parser leaves sys.tracebacklimit at 0,
+    which empties traceback.extract_tb)"""
+    fr = []
+    tb = ex.__traceback__
+    while tb is not None:
+        co = tb.tb_frame.f_code
+        fr.append("%s:%s" % (os.path.basename(co.co_filename), co.co_name))
+        tb = tb.tb_next
+    # keep the outermost unified_planning frames and the innermost ones
+    return ">".join(fr[:1] + [f for f in fr[1:-3] if f.startswith("from_pddl.py")][:1] + fr[-3:])
 
 
 def _msg(ex):
@@ -279,8 +293,7 @@ def round_trip(P, plans, temporal, limit=30):
                 q = None
             except Exception as ex:
                 R["rexc"], R["rmsg"] = _exc(ex), _msg(ex)
-                tb = traceback.extract_tb(ex.__traceback__)
-                R["rwhere"] = ">".join("%s:%s" % (os.path.basename(f.filename), f.name) for f in tb[-3:])
+                R["rwhere"] = _where(ex)
                 q = None
             if q is not None:
                 try:
@@ -470,6 +483,10 @@ def features(P, W=None):
         fs.add("name:temporal-keyword")
     if "total-cost" in low:
         fs.add("name:total-cost")
+    if "assign" in low:
+        fs.add("name:assign")
+    if low & {"oneof", "unknown", "observe"}:
+        fs.add("name:contingent-keyword")
     if any(te["e"]["c"] != upj.TRUE_E for te in P.get("timed_effects", [])):
         fs.add("conditional-timed-effect")
     # sums / products with a repeated operand, by place
@@ -670,7 +687,7 @@ def build_batches(recs, D):
 
 
 _READ_FEATS = ["metric-constant-in-text", "empty-timed-effect-in-text", "name:pddl3-keyword", "name:temporal-keyword",
-               "name:total-cost", "conditional-timed-effect"]
+               "name:total-cost", "name:assign", "name:contingent-keyword", "conditional-timed-effect"]
 # behavioural clauses x the input features known findings are keyed on (prefix match on the clause)
 RELEVANT = [
     ("applicability-A-inv-B-ok", ["bounded"]),
@@ -685,7 +702,7 @@ RELEVANT_AI = [
     ("successor-differs", ["repeated-operand:eff"]),
     ("goal-verdict-", ["repeated-operand:goal"]),
     ("plan-validity-", ["repeated-operand:pre", "repeated-operand:eff", "repeated-operand:goal"]),
-    ("plan-metric-value-differs", ["repeated-operand:cost", "repeated-operand:metric"]),
+    ("plan-metric-value-differs", ["repeated-operand:cost", "repeated-operand:metric", "repeated-operand:pre", "repeated-operand:eff"]),
 ]
 
 
